@@ -109,6 +109,7 @@ func (s *State) clone() *State {
 
 // Obligation is one proof obligation.
 type Obligation struct {
+	Soft   bool   // a cover whose failure is a note, not a machinery fault
 	Func   string // function under verification
 	Kind   string // bounds, nil, conv, assert-type, div, panic, pre, post, inv-init, inv-keep, frame, unwind, cover, variant
 	Label  string
@@ -437,7 +438,7 @@ func (e *Exec) fresh(T types.Type, name string) Value {
 func (e *Exec) zero(T types.Type) Value {
 	c := e.C
 	if s, ok := abstractSort(T); ok {
-		return Scalar{T: c.Sym("zero_"+s.Name, s), Typ: T}
+		return Scalar{T: c.Sym("spec_zero_"+s.Name, s), Typ: T}
 	}
 	switch u := T.Underlying().(type) {
 	case *types.Basic:
